@@ -11,7 +11,23 @@ pub struct C09;
 
 /// a builder of one value: (source expression, type, lower bound of its payload in bytes)
 fn gen_builder(t: &mut Tape) -> (String, &'static str, u64, &'static str) {
-    match t.below(14) {
+    match t.below(16) {
+        14 => {
+            // a mapping whose hash collides: the entries, not the buckets, are the payload
+            let n = t.range(4, 120) as u64;
+            let m = t.range(1, 5);
+            (
+                format!("mapping((x: int) -> {{ x % {m} }}, eq{{int, int}}).update(range({n}).map((x: int) -> {{ (x, x * 2) }}))"),
+                "Mapping<int, int>",
+                16 * n,
+                "mapping",
+            )
+        }
+        15 => {
+            let n = t.range(4, 120) as u64;
+            let m = t.range(1, 5);
+            (format!("set((x: int) -> {{ x % {m} }}, eq{{int, int}}).update(range({n}))"), "Set<int>", 8 * n, "set")
+        }
         0 => {
             let bits = *t.pick(&[70u64, 200, 1000, 4000]);
             (format!("2 ** {bits}"), "int", bits / 8, "bigint")
@@ -364,7 +380,7 @@ impl Property for C09 {
         "fault_enumeration"
     }
     fn rule(&self) -> String {
-        "A program of 1-3 exported values and an exported function built from 14 builders (big ints, repeated and joined strings, arrays, forced lazy sequences, stacks, sets, mappings, tuples, closures, optionals, nested arrays, sorted arrays), plus a second function that ends in an error value or in another violation. With the allocation-trace hook the running accounted total of an unlimited run gives every point where a new maximum is reached; the size limit is then set to each such value and to the value minus one (at most 40 points sampled, first and last always), so the allocation failure lands on every distinct allocation point. Oracle: (a) a total above L only together with AllocationLimitReached; (b) accounted bytes after instantiation >= library baseline + payload lower bound of the exported values; (c) bytes return to the post-instantiation level after each run (repeated runs, runs ending in an error or another violation) and to zero when the scope is dropped, also after every failing run; (d) once a swept limit passes every larger one passes (pre-flight estimates may be pessimistic but must be monotone), a limit far above the peak passes, passing results equal the unlimited ones, no panic. Non-trivial = at least 2 of the swept limits ended in the violation. Distinct by source.".into()
+        "A program of 1-3 exported values and an exported function built from 16 builders (big ints, repeated and joined strings, arrays, forced lazy sequences, stacks, sets and mappings incl. ones whose hash collides, tuples, closures, optionals, nested arrays, sorted arrays), plus a second function that ends in an error value or in another violation. With the allocation-trace hook the running accounted total of an unlimited run gives every point where a new maximum is reached; the size limit is then set to each such value and to the value minus one (at most 40 points sampled, first and last always), so the allocation failure lands on every distinct allocation point. Oracle: (a) a total above L only together with AllocationLimitReached; (b) accounted bytes after instantiation >= library baseline + payload lower bound of the exported values; (c) bytes return to the post-instantiation level after each run (repeated runs, runs ending in an error or another violation) and to zero when the scope is dropped, also after every failing run; (d) once a swept limit passes every larger one passes (pre-flight estimates may be pessimistic but must be monotone), a limit far above the peak passes, passing results equal the unlimited ones, no panic. Non-trivial = at least 2 of the swept limits ended in the violation. Distinct by source.".into()
     }
     fn assumptions(&self) -> Vec<String> {
         vec![
